@@ -284,6 +284,35 @@ class SeqProperty:
                                            key=key, case=case, device=None, ops=[]))
                     if tier == "quick":
                         break
+        # 2c. SLM-mask sequences (outside the model's op alphabet): timeline clauses for C02, limits for C01,
+        # on the implementation only
+        slm_stats = None
+        if prop in ("C01", "C02") and not (violations and tier == "quick"):
+            import slm_clauses
+
+            srng = random.Random(f"{prop}-slm-{seed}")
+            slm_stats = dict(cases=0, skipped=0, failed=0)
+            for _ in range(150 if tier == "quick" else 3000):
+                case = slm_clauses.gen_case(srng)
+                try:
+                    msg = slm_clauses.run_case(case, prop)
+                except Exception as e:  # noqa: BLE001
+                    raise InfraError(f"slm_clauses raised {type(e).__name__}: {str(e)[:200]} on {case}")
+                slm_stats["cases"] += 1
+                if msg == "skip":
+                    slm_stats["skipped"] += 1
+                    continue
+                if msg:
+                    slm_stats["failed"] += 1
+                    key = dict(clause="slm-mask-instruction")
+                    kf = match_known(prop, key, findings)
+                    if kf is not None:
+                        known_hits[kf["id"]] += 1
+                        continue
+                    violations.append(dict(property=prop, kind="slm", clause="slm-mask-instruction", message=msg,
+                                           key=key, case=case, device=None, ops=[]))
+                    if tier == "quick":
+                        break
         # 3a. translator tie broken (an obligation over a regenerated table fails): the
         # histories above were the search; without a failing input it is still reported
         if broken_tie and not violations:
@@ -333,6 +362,11 @@ class SeqProperty:
             assumptions=TRUSTED_BASE,
             wall_s=timer.s(), violations=len(violations),
         )
+        if slm_stats is not None:
+            ev["coverage"]["slm_mask_clause"] = dict(
+                slm_stats, note="sequences with config_slm_mask built with the real API (harness/slm_clauses.py): the "
+                                "instruction the mask schedules on its DMM obeys the channel's clock / duration limits "
+                                "(C02) and detuning limits (C01); implementation only")
         if emul_stats is not None:
             ev["coverage"]["emulator_clause"] = dict(
                 emul_stats, note="C07: two pi/2 pulses separated by a phase shift phi give excitation cos^2(phi/2); "
@@ -364,6 +398,16 @@ class SeqProperty:
     # ------------------------------------------------------------------
     def replay(self, path: str) -> int:
         item = json.loads(Path(path).read_text())
+        if item.get("kind") == "slm":
+            import slm_clauses
+
+            msg = slm_clauses.run_case(item["case"], self.prop)
+            if msg and msg != "skip":
+                print(msg)
+                print(f"VIOLATION property={self.prop} replay={path}")
+                return 1
+            print("replay: property holds on this case")
+            return 0
         if item.get("kind") == "emulator":
             import emul_clauses
 
